@@ -185,3 +185,118 @@ package comp
 //@   assigns c.lines
 //@   loop 0: invariant c.lines == old(c.lines)
 //@   loop 0: invariant forall j :: 0 <= j && j < _idx0 ==> !covers(c.lines[j], addr)
+
+//@ func (*LRUCache).GetCacheLine
+//@   requires wfCache(c)
+//@   ensures result1 == (exists i :: 0 <= i && i < len(c.lines) && covers(c.lines[i], int32(addr)))
+//@   ensures forall i :: result1 && 0 <= i && i < len(c.lines) && covers(c.lines[i], int32(addr)) && (forall j :: 0 <= j && j < i ==> !covers(c.lines[j], int32(addr))) ==> result == c.lines[i].Data
+//@   ensures !result1 ==> result == nil
+//@   assigns nothing
+//@   loop 0: invariant forall j :: 0 <= j && j < _idx0 ==> !covers(c.lines[j], int32(addr))
+
+// EvictCacheLine removes exactly the first line covering addr and returns its
+// data; the other lines keep their order.
+//@ func (*LRUCache).EvictCacheLine
+//@   requires wfCache(c)
+//@   ensures result1 == (exists i :: 0 <= i && i < len(old(c.lines)) && covers(old(c.lines[i]), int32(addr)))
+//@   ensures !result1 ==> c.lines == old(c.lines) && result == nil
+//@   ensures result1 ==> len(c.lines) == len(old(c.lines)) - 1
+//@   ensures forall i :: result1 && 0 <= i && i < len(old(c.lines)) && covers(old(c.lines[i]), int32(addr)) && (forall j :: 0 <= j && j < i ==> !covers(old(c.lines[j]), int32(addr))) ==> result == old(c.lines[i].Data)
+//@   ensures forall i, k :: result1 && 0 <= i && i < len(old(c.lines)) && covers(old(c.lines[i]), int32(addr)) && (forall j :: 0 <= j && j < i ==> !covers(old(c.lines[j]), int32(addr))) && 0 <= k && k < i ==> c.lines[k] == old(c.lines[k])
+//@   ensures forall i, k :: result1 && 0 <= i && i < len(old(c.lines)) && covers(old(c.lines[i]), int32(addr)) && (forall j :: 0 <= j && j < i ==> !covers(old(c.lines[j]), int32(addr))) && i <= k && k < len(c.lines) ==> c.lines[k] == old(c.lines[k+1])
+//@   assigns c.lines, c.lines[*]
+//@   loop 0: invariant c.lines == old(c.lines)
+//@   loop 0: invariant forall j :: 0 <= j && j < _idx0 ==> !covers(c.lines[j], int32(addr))
+
+// PushLine: the new line goes in front, the rest is shifted; when the cache
+// was full the least-recently-used (last) line is displaced and its data is
+// reported.
+//@ func (*LRUCache).PushLine
+//@   requires c.numberOfLines >= 0 && c.lineLength >= 0 && c.lineLength <= 1048576 && 0 <= int32(addr) && int32(addr) <= 1073741824
+//@   requires len(c.lines) <= c.numberOfLines
+//@   ensures len(c.lines) == min(len(old(c.lines)) + 1, c.numberOfLines)
+//@   ensures c.numberOfLines > 0 ==> c.lines[0].Boundary[0] == addr && int(c.lines[0].Boundary[1]) == int(addr) + c.lineLength && c.lines[0].Data == data
+//@   ensures forall j :: 0 < j && j < len(c.lines) ==> c.lines[j] == old(c.lines[j-1])
+//@   ensures len(old(c.lines)) < c.numberOfLines ==> result == nil
+//@   ensures len(old(c.lines)) == c.numberOfLines && c.numberOfLines > 0 ==> result == old(c.lines[len(c.lines)-1].Data)
+//@   ensures len(old(c.lines)) == c.numberOfLines && c.numberOfLines == 0 ==> result == data
+//@   assigns c.lines
+
+//@ func (*LRUCache).PushLineWithEvictionWarning
+//@   requires c.numberOfLines >= 0 && c.lineLength >= 0 && c.lineLength <= 1048576 && 0 <= int32(addr) && int32(addr) <= 1073741824
+//@   ensures len(c.lines) == len(old(c.lines)) + 1
+//@   ensures c.lines[0].Boundary[0] == addr && int(c.lines[0].Boundary[1]) == int(addr) + c.lineLength && c.lines[0].Data == data
+//@   ensures forall j :: 0 < j && j < len(c.lines) ==> c.lines[j] == old(c.lines[j-1])
+//@   ensures (result != nil) == (len(c.lines) > c.numberOfLines)
+//@   ensures result != nil ==> fresh(result) && *result == c.lines[len(c.lines)-1]
+//@   assigns c.lines
+
+// ---------------------------------------------------------------- RAT (C15, C04)
+// A ring of the last `length` values written per key. Slot idx is the newest;
+// recency decreases towards 0 and then from length-1 down to idx+1 (those
+// later slots hold written values only once the ring has wrapped).
+
+//@ spec func validSlot(r *RAT, k K, i int) bool = k in r.idx && ((0 <= i && i <= r.idx[k]) || (r.wrapped[k] && r.idx[k] < i && i < r.length))
+//@ spec func rank(r *RAT, k K, i int) int = i <= r.idx[k] ? r.idx[k] - i : r.idx[k] + r.length - i
+//@ spec func wfRAT(r *RAT) bool = r != nil && 0 < r.length && r.length <= 1073741824 && r.values != nil && r.idx != nil && r.wrapped != nil \
+//@    && (forall k K :: (k in r.idx) == (k in r.values)) \
+//@    && (forall k K :: k in r.idx ==> 0 <= r.idx[k] && r.idx[k] < r.length && len(r.values[k]) == r.length && allocated(r.values[k])) \
+//@    && (forall k K :: r.wrapped[k] ==> k in r.idx) \
+//@    && (forall k1 K, k2 K :: k1 in r.idx && k2 in r.idx && k1 != k2 ==> !sameArray(r.values[k1], r.values[k2]))
+
+//@ func NewRAT
+//@   requires 0 < length && length <= 1073741824
+//@   ensures fresh(result) && wfRAT(result) && result.length == length
+//@   ensures forall k K :: !(k in result.idx)
+//@   assigns nothing
+
+//@ func (*RAT).Read
+//@   requires wfRAT(r)
+//@   ensures result1 == (k in r.idx)
+//@   ensures result1 ==> result == r.values[k][r.idx[k]]
+//@   assigns nothing
+
+// Find returns the most recently written value among the written slots that
+// satisfies the predicate.
+//@ func (*RAT).Find
+//@   requires wfRAT(r)
+//@   ensures result1 == (exists i :: validSlot(r, k, i) && predicate(r.values[k][i]))
+//@   ensures forall i :: result1 && validSlot(r, k, i) && predicate(r.values[k][i]) && (forall i2 :: validSlot(r, k, i2) && predicate(r.values[k][i2]) ==> rank(r, k, i) <= rank(r, k, i2)) ==> result == r.values[k][i]
+//@   assigns nothing
+//@   loop 0: invariant -1 <= i && i <= idx && (forall j :: i < j && j <= idx ==> !predicate(r.values[k][j]))
+//@   loop 1: invariant idx <= i && i <= r.length - 1 && (forall j :: i < j && j < r.length ==> !predicate(r.values[k][j]))
+//@   loop 1: invariant forall j :: 0 <= j && j <= idx ==> !predicate(r.values[k][j])
+
+//@ func (*RAT).Write
+//@   requires wfRAT(r)
+//@   ensures wfRAT(r)
+//@   ensures k in r.idx && r.values[k][r.idx[k]] == value
+//@   ensures old(k in r.idx) ==> r.idx[k] == (old(r.idx[k]) + 1) % r.length && sameArray(r.values[k], old(r.values[k])) && r.wrapped[k] == (old(r.wrapped[k]) || r.idx[k] == 0)
+//@   ensures old(k in r.idx) ==> (forall i :: 0 <= i && i < r.length && i != r.idx[k] ==> r.values[k][i] == old(r.values[k][i]))
+//@   ensures !old(k in r.idx) ==> r.idx[k] == 0 && !r.wrapped[k] && fresh(r.values[k])
+//@   ensures forall k2 K :: k2 != k ==> (k2 in r.idx) == old(k2 in r.idx) && r.idx[k2] == old(r.idx[k2]) && r.values[k2] == old(r.values[k2]) && r.wrapped[k2] == old(r.wrapped[k2])
+//@   ensures forall k2 K, i int :: k2 != k && k2 in r.idx && 0 <= i && i < r.length ==> r.values[k2][i] == old(r.values[k2][i])
+//@   assigns r.idx[*], r.values[*], r.wrapped[*], r.values[k][*]
+
+//@ func (*RAT).Values
+//@   requires wfRAT(r)
+//@   ensures result != nil && fresh(result)
+//@   ensures forall k K :: (k in result) == (k in r.idx)
+//@   ensures forall k K :: k in r.idx ==> result[k] == r.values[k][r.idx[k]]
+//@   assigns nothing
+//@   loop 0: invariant forall k K :: (k in m) == visited(k)
+//@   loop 0: invariant forall k K :: visited(k) ==> k in r.idx && m[k] == r.values[k][r.idx[k]]
+
+// FindValues: per key, the most recently written value among the written
+// slots that satisfies the predicate; keys without such a slot are absent.
+//@ func (*RAT).FindValues
+//@   requires wfRAT(r)
+//@   ensures result != nil && fresh(result)
+//@   ensures forall k K :: (k in result) == (exists i :: validSlot(r, k, i) && predicate(r.values[k][i]))
+//@   ensures forall k K, i int :: k in result && validSlot(r, k, i) && predicate(r.values[k][i]) && (forall i2 :: validSlot(r, k, i2) && predicate(r.values[k][i2]) ==> rank(r, k, i) <= rank(r, k, i2)) ==> result[k] == r.values[k][i]
+//@   assigns nothing
+//@   loop 0: invariant forall k K :: !visited(k) ==> !(k in m)
+//@   loop 0: invariant forall k K :: visited(k) ==> k in r.idx && (k in m) == (exists i :: validSlot(r, k, i) && predicate(r.values[k][i]))
+//@   loop 0: invariant forall k K, i int :: visited(k) && k in m && validSlot(r, k, i) && predicate(r.values[k][i]) && (forall i2 :: validSlot(r, k, i2) && predicate(r.values[k][i2]) ==> rank(r, k, i) <= rank(r, k, i2)) ==> m[k] == r.values[k][i]
+//@   loop 1: invariant -1 <= i && i <= v && !found && (forall j :: i < j && j <= v ==> !predicate(r.values[k][j]))
+//@   loop 2: invariant v <= i && i <= r.length - 1 && (forall j :: i < j && j < r.length ==> !predicate(r.values[k][j]))
